@@ -144,6 +144,8 @@ def run(rep):
     rsv = [c for c in robj.calls if c.name == "remove_service"]
     rep.check(bool(rsv) and all(any_match(robj.describe(c.args[2]), r"Object::services\(self\.objs\.remove\(") for c in rsv), "C03-R4", robj.def_, "cascade-services", "remove_object must remove every service of the removed object", detail={})
     sd = M["shutdown_connection"]
+    tm = broker.teardown_must_pass(sd, ["objects"])
+    rep.check(tm.get("objects"), "C03-R4", sd.def_, "disconnect-always-removes-objects", "once the connection was taken out of self.conns every path of shutdown_connection must remove its objects (and thereby their services); an early return leaves them registered with no owner", detail={})
     ro = [c for c in sd.calls if c.name == "remove_object"]
     rep.check(bool(ro) and all(any_match(sd.describe(c.args[2]), r"ConnectionState::objects\(self\.conns\.remove\(id\)") for c in ro), "C03-R4", sd.def_, "disconnect-objects", "a disconnect must remove every object owned by the connection", detail={})
 
